@@ -110,11 +110,11 @@ type c06World struct {
 type c06Cond struct{ Type, Status, Reason string }
 
 type c06BrefOut struct {
-	Valid    bool
-	SvcNs    string
-	SvcName  string
-	Port     int32
-	Weight   int32
+	Valid   bool
+	SvcNs   string
+	SvcName string
+	Port    int32
+	Weight  int32
 }
 
 type c06RouteOut struct {
@@ -125,10 +125,10 @@ type c06RouteOut struct {
 }
 
 type c06LisOut struct {
-	Name     string
-	Valid    bool
-	Secret   *types.NamespacedName
-	Conds    []c06Cond
+	Name   string
+	Valid  bool
+	Secret *types.NamespacedName
+	Conds  []c06Cond
 }
 
 type c06Obs struct {
